@@ -22,10 +22,12 @@ def run(ctx):
         ctx.seed -= 4000
         ctx.corr(hx, ["conc", "--runs", "1500"], cases_name="conc.v", timeout=1500)
         ctx.corr(hx, ["sched", "--n", "4000"], cases_name="sched.v")
+        ctx.corr(hx, ["reent", "--n", "400"], cases_name="reent.v")
     else:
         ctx.corr(hx, ["lock", "--n", "70", "--len", "30"])
         ctx.corr(hx, ["conc", "--runs", "150"], cases_name="conc.v")
         ctx.corr(hx, ["sched", "--n", "400"], cases_name="sched.v")
+        ctx.corr(hx, ["reent", "--n", "40"], cases_name="reent.v")
     ctx.assumptions += [
         "model assumption (interface of C13): callbacks of a Variable/Set run synchronously, once per change, in registration order",
         "guards of the theorems: the derived value is not written directly (it is itself a Variable/Set); an unsubscribe function of DerivedSet.InheritFrom is called at most once; compute functions do not depend on the current value; list arguments of set operations are duplicate-free (they are ds.Set values); EvictionState slots are modelled as unbounded N (Evict(max) of the slot type is a directed regression case, fix 2c4b512)",
